@@ -15,10 +15,11 @@
        empty" padding as K7, but produced inside the cached map of a CachedSource that DOES
        map chunks.  The absent = empty comparison of chk_C13 accepts the pair
        (pad_absent_is_empty, an instance of EqDiffChk.D_absent_is_empty).
-   k7w_shape / k7s_shape (EqDiffAnns.v)   widenings of k7_shape that cover it ("the wrapped
-       source announces a file without content in front of a file with content"); outside
-       k7s_shape the verdict is 0 (EqDiffStrict.D2_strict); a recorded brute-force search
-       (k7w_covers_sample) finds no failure outside k7w_shape and no difference between the two.
+   k7w_shape / k7s_shape (EqDiffAnns.v) / k7c_shape (EqDiffStrict.v)   widenings of k7_shape
+       that cover it ("the wrapped source announces a file without content in front of a file
+       with content"); outside k7s_shape = k7c_shape the verdict is 0 (EqDiffStrict.D2_strict,
+       D2_strict_c); a recorded brute-force search (k7w_covers_sample) finds no failure outside
+       k7w_shape and no difference between the three.
    D3_k7_nonempty   the K7 class really yields 57.
    D4_*   non-vacuity: caches, k7_shape false, different histories, verdict 0.
    k7_present_instance   a tree INSIDE the K7 class on which the strict checker provably answers 0
@@ -137,16 +138,17 @@ Qed.
 (* a widening of the class that covers the witness                      *)
 (* ------------------------------------------------------------------ *)
 (* k7w_shape / k7s_shape: EqDiffAnns.v *)
-Example pad_tree_k7w (i : N) : k7w_shape (pad_tree i) = true /\ k7s_shape (pad_tree i) = true.
-Proof. vm_compute. split; reflexivity. Qed.
+Example pad_tree_k7w (i : N) :
+  k7w_shape (pad_tree i) = true /\ k7s_shape (pad_tree i) = true /\ k7c_shape (pad_tree i) = true.
+Proof. vm_compute. repeat split; reflexivity. Qed.
 
 (* a recorded search: 9 leaves (empty / non-empty OriginalSource, RawSource, SourceMapSources with
    and without contents, with empty text, without mappings, with an unreferenced source, a second
    content for the same file), shape  x ; Cached (y ; z)  and  x ; Cached (y ; Cached z),
    every single observer call on one side against no call on the other: whenever the tree is in
    the class and the verdict is not 0, the tree is in the widened class, and the verdict is
-   15, 16 or 57; and the two widened classes (k7w_shape: "maps no chunk", k7s_shape: "attributes
-   no text", the one D2_strict is proved for) coincide on every tree of the sample. *)
+   15, 16 or 57; and the widened classes (k7w_shape: "maps no chunk"; k7s_shape = k7c_shape:
+   "attributes no text", the one D2_strict is proved for) coincide on every tree of the sample. *)
 Definition mk_sm (v mp : text) (ss cs : list text) : src :=
   SMapped v [109] (mkSmap None mp ss cs [] None None) None None false.
 Definition sample_leaves : list src :=
@@ -170,7 +172,7 @@ Definition in_cls (s : src) : bool :=
   ids_distinctb s && negb (k2_shape s) && rshape (uncache s) && treeA s && rsmall (uncache s) && tiny (uncache s).
 Definition sample_ok (t : src) : bool :=
   negb (in_cls t) ||
-  Bool.eqb (k7s_shape t) (k7w_shape t) &&
+  Bool.eqb (k7s_shape t) (k7w_shape t) && Bool.eqb (k7c_shape t) (k7w_shape t) &&
   forallb (fun op => let v := chk_C14_pair t t (api_pair t [op] t []) in
                      (v =? 0) || (k7_shape t && (v =? 57))
                      || (negb (k7_shape t) && k7w_shape t && ((v =? 15) || (v =? 16)))) sample_ops.
@@ -303,7 +305,8 @@ Proof.
   apply D2_strict; try assumption; vm_compute; reflexivity.
 Qed.
 
-Example D4_w_tree_class : k7s_shape w_tree = false /\ k7w_shape w_tree = false /\ presentb (decl w_tree) = false.
+Example D4_w_tree_class :
+  k7s_shape w_tree = false /\ k7c_shape w_tree = false /\ k7w_shape w_tree = false /\ presentb (decl w_tree) = false.
 Proof. vm_compute. repeat split; reflexivity. Qed.
 
 (* the K7 witness is inside the widened classes *)
